@@ -995,13 +995,13 @@ pub fn run_one(
     }
 }
 
-fn histories_for(n: usize, b: &Budget, rng: &mut Rng) -> Vec<Vec<Op>> {
-    let mut h = fixed_histories(n);
+fn histories_for(n: usize, b: &Budget, rng: &mut Rng, ord: bool) -> Vec<Vec<Op>> {
+    let mut h = crate::hist::fixed_histories_ord(n, ord);
     if n <= b.interleave_n {
         h.extend(exhaustive_interleavings(n));
     }
     for _ in 0..b.rand_hist {
-        h.push(random_history(rng, n, 16));
+        h.push(crate::hist::random_history_ord(rng, n, 16, ord));
     }
     h
 }
@@ -1013,7 +1013,7 @@ pub fn c06(vt: &VTable, m: &Model, b: &Budget, rng: &mut Rng, rep: &mut Report) 
     };
     let expect: Vec<Val> = m.sorted.iter().map(|x| Val::D(x.0)).collect();
     let universe = |d: D| m.contains(d);
-    let hs = histories_for(m.n(), b, rng);
+    let hs = histories_for(m.n(), b, rng, false);
     let mut ctx = IterCtx {
         rep,
         states: HashSet::new(),
@@ -1039,7 +1039,7 @@ pub fn c08(vt: &VTable, m: &Model, b: &Budget, rng: &mut Rng, rep: &mut Report) 
     };
     let expect: Vec<Val> = m.sorted.iter().map(|x| Val::S(x.1)).collect();
     let universe = |_d: D| true;
-    let hs = histories_for(m.n(), b, rng);
+    let hs = histories_for(m.n(), b, rng, true);
     {
         let mut ctx = IterCtx {
             rep,
@@ -1100,6 +1100,7 @@ impl Sink for ZipSink {
     fn seq_item(&mut self, _: Val) {}
     fn seq_end(&mut self) {}
     fn count(&mut self, _: usize) {}
+    fn opt_index(&mut self, _: Option<usize>) {}
     fn pair(&mut self, v: D, s: &'static str) {
         if self.pairs.len() < 70000 {
             self.pairs.push((v, s));
@@ -1187,11 +1188,14 @@ pub fn c07(vt: &VTable, m: &Model, b: &Budget, rng: &mut Rng, rep: &mut Report) 
             vt.idents[ia], m.sorted[a].0, vt.idents[ib], m.sorted[bb].0
         );
         let call = |o: &[Op], s: &mut dyn Sink| f(ia, ib, o, s);
-        let basics: [&[Op]; 4] = [
+        let basics: [&[Op]; 7] = [
             &[Op::Len, Op::SizeHint, Op::Collect],
             &[Op::RevCollect],
             &[Op::Next, Op::NextBack, Op::Len, Op::Fold],
             &[Op::NthBack(0), Op::Nth(0), Op::Last],
+            &[Op::NextBack, Op::RFold],
+            &[Op::Nth(1), Op::Count],
+            &[Op::Next, Op::TryRFoldStop(2)],
         ];
         for ops in basics {
             run_one(&mut ctx, "range", &what, expect, ops, &call, None);
